@@ -79,3 +79,19 @@ PROPS["C02"] = {
         {"test": "^TestC02Seq$", "quick": {"checks": 120, "shards": 8}, "thorough": {"checks": 1500, "shards": 16, "steps": 80}},
     ],
 }
+
+PROPS["C04"] = {
+    "level": "fault_enumeration",
+    "technique": "generated histories and crash images (rapid + crash-point enumeration) judged by a structural checker (fsck) over the logical disk, built on the repository's own decoders",
+    "level_text": "fsck (pointers in the data region, single ownership incl. indirect blocks and half-freed inodes, owned => marked, inode bitmap <=> kind, tree with exactly one name per live object, unique well-formed names, '.'/'..', sizes vs mapped blocks, allocators = bitmaps) runs (a) at every 8th step and at the end of generated sequential histories with deep trees, renames, removes, truncations, clean restarts and shrinker-interrupting stops, (b) on the recovered logical disk of every explored crash image of generated programs that create, truncate and remove files large enough for multi-transaction frees.",
+    "level_note": "Sampled histories; crash points enumerated per trace (quick <=250, thorough all). The checker reads through the server's own journal object; it trusts super/inode/dirent decoders of the repository (format changes made consistently raise no alarm). Reply mismatches are C02's subject and only cut the case short here.",
+    "rule": ("unit = one fsck run (quiescent state of a sequential history, or recovered crash image). Non-trivial: the state has >=3 directories and >=1 indirect block, or the crash image contains a half-freed inode. "
+             "distinct = FNV hash of the history (sequential) or of (program, crash point, variant)."),
+    "assumptions": CRASH_ASSUMPTIONS,
+    "required_classes": ["quiescent_states_checked", "crash_images", "crash_images_with_half_freed_inode"],
+    "units": [
+        {"test": "^TestC04Seq$", "quick": {"checks": 60, "shards": 6}, "thorough": {"checks": 800, "shards": 8, "steps": 60}},
+        {"test": "^TestC04Crash$", "quick": {"checks": 5, "shards": 2, "procs": 5, "timeout": 600},
+         "thorough": {"checks": 60, "shards": 4, "procs": 4, "timeout": 7200}},
+    ],
+}
